@@ -18,8 +18,8 @@ VERIF = os.path.dirname(os.path.dirname(os.path.dirname(os.path.abspath(__file__
 M = []
 
 
-def mut(id, prop, file, old, new, note="", count=1):
-    M.append({"id": id, "prop": prop, "file": file, "old": old, "new": new, "note": note, "count": count})
+def mut(id, prop, file, old, new, note="", count=1, expect="CAUGHT"):
+    M.append({"id": id, "prop": prop, "file": file, "old": old, "new": new, "note": note, "count": count, "expect": expect})
 
 
 # ---------------------------------------------------------------- C20
@@ -35,6 +35,19 @@ mut("c20-ssel-gets-pre-eval-state", "C20", RS,
     "            self.genome, self.geno, self.pheno, self.bval, self.gmod = self._sselop.sselect(\n                genome = self._genome,\n                geno = self._geno,\n                pheno = self._pheno,",
     "            _ph = self._pheno\n            self.genome, self.geno, self.pheno, self.bval, self.gmod = self._sselop.sselect(\n                genome = self._genome,\n                geno = self._geno,\n                pheno = _ph if self._t_cur != 3 else self.start_pheno,",
     "survivor selection handed the stored initial phenotypes at t == 3 only")
+
+# ---------------------------------------------------------------- C17
+SP = "pybrops/core/random/sampling.py"
+mut("c17-revert-sus-fix", "C17", SP, "    ptrs = offset + ptr_dist * numpy.arange(k)      # create exactly k pointers", "    ptrs = numpy.arange(offset, tot_fit, ptr_dist)", "reverts fix 2621f5bb (pointer count)")
+mut("c17-sus-spacing", "C17", SP, "    ptr_dist = tot_fit / k ", "    ptr_dist = tot_fit / (k + 1) ", "pointer spacing tot/(k+1)")
+mut("c17-sus-unsorted-cumsum", "C17", SP, "    cumsum = p[indices].cumsum()", "    cumsum = p.cumsum()", "cumulative sum not in sorted order")
+mut("c17-sus-no-clamp", "C17", SP, "        while ix < ixmax and cumsum[ix] < ptr:", "        while ix < len(cumsum) - 1 and cumsum[ix] < ptr:", "clamp at last element rather than last non-zero element")
+mut("c17-tiled-with-replacement", "C17", SP, "        out[(qu*noption):] = rng.choice(a, re, replace, p)", "        out[(qu*noption):] = rng.choice(a, re, True, p)", "remainder drawn with replacement")
+mut("c17-tiled-short-tiles", "C17", SP, "        for i in range(qu):\n            out[(i*noption):((i+1)*noption)] = a", "        for i in range(qu):\n            out[(i*noption):((i+1)*noption)] = a if i < 3 else a[::-1][0]", "fourth and later tiles filled with one option")
+mut("c17-axis-whole-array", "C17", SP, "    for s in sliceaxisix(a.shape,axis):\n        rng.shuffle(a[s])", "    for s in sliceaxisix(a.shape,axis):\n        rng.shuffle(a[s] if a.ndim < 4 else a)", "4-d arrays shuffled across slices")
+mut("c17-outcross-accept-equal", "C17", SP, "            if score < gbest_score:             # if weighted score is better", "            if score < gbest_score or (score == gbest_score and len(xravel) > 14 and i == 0 and j == 1):", "accepting an equal exchange makes the climber loop forever: expected outcome is a run time-out (exit 2), not exit 0", expect="NONZERO")
+mut("c17-outcross-early-stop", "C17", SP, "        iterate = not local_optima              # update whether to continue climbing", "        iterate = (not local_optima) and gbest_score > 1", "stops climbing when one repeat is left")
+mut("c17-outcross-half-pairs", "C17", SP, "for j in range(i+1, len(xravel))])", "for j in range(i+1, min(len(xravel), i+9))])", "exchange pairs further than 8 apart never tried")
 
 
 def run_one(m, runs, tier_args=()):
@@ -82,7 +95,7 @@ def main(argv):
             continue
         verdict, detail = run_one(m, runs)
         print("%-14s %-34s %s  %s" % (verdict, m["id"], m["prop"], detail), flush=True)
-        if verdict != "CAUGHT":
+        if verdict != "CAUGHT" and not (m["expect"] == "NONZERO" and verdict == "HARNESS-ERROR"):
             missed += 1
     return 1 if missed else 0
 
